@@ -372,7 +372,8 @@ def check_C01(ctx, rep):
                             cls = 'ARITH-GUARDED'
                             st = pf.at(b, len(bb['s']))
                             # the checked op statement precedes the assert in the same block; evaluate facts at block entry + in-block kills
-                            okp, w = all_paths(pf.at_entry(b), lambda S: cmp_int_true(S, 'lt', lambda l2: is_const(l2, 0), lambda r2: is_field(r2, 'state_limit', 'MachineRuntime')))
+                            okp, w = all_paths(pf.at_entry(b), lambda S: cmp_int_true(S, 'lt', lambda l2: is_const(l2, 0), lambda r2: is_field(r2, 'state_limit', 'MachineRuntime'))
+                                               or cmp_int_true(S, 'ne', lambda l2: is_field(l2, 'state_limit', 'MachineRuntime'), lambda r2: is_const(r2, 0)))
                             ok = okp and bool(pf.at_entry(b))
                     rep.ob('C01.R1', fn, 'assert:Overflow:%s:%s' % (cls, desc[:60]), ok, 'checked arithmetic %s [%s]' % (desc, cls), site='%s:%d' % (fn.file, bb['ln']))
                 else:
@@ -455,18 +456,31 @@ def check_C01(ctx, rep):
                     n_sites['range'] += 1
                     rg = args[1]
                     cls, ok = '?', False
-                    if rg[0] == 'agg' and rg[2] == 'Range':
+                    if is_call(rg, 'RangeInclusive::<Idx>::new') and num(rg[2][0]) is not None and num(rg[2][1]) is not None:
+                        cls = 'RANGE-CONST'
+                        ok = num(rg[2][0]) <= num(rg[2][1])
+                    elif rg[0] == 'agg' and rg[2] == 'Range':
                         d = dict(rg[3])
                         if num(d.get('start')) is not None and num(d.get('end')) is not None:
                             cls = 'RANGE-CONST'
                             ok = num(d['start']) < num(d['end'])
                         else:
                             cls = 'RANGE-UNIFORM'
-                            ok = uniform_guard(ctx, fn, fa, b, d)
+                            ok = uniform_guard(ctx, fn, fa, b, d, need=('low-not-nan', 'high-not-nan', 'low-le-high', 'width-finite'))
                     rep.ob('C01.R1', fn, 'gen_range:%s' % cls, ok, 'gen_range(%s) [%s]' % (shape(rg), cls), site='%s:%d' % (fn.file, bb['ln']))
                 elif any(cs.endswith(p) or p in cs for p in PARTIAL_CALLS) and f.get('crate') != FW:
-                    if cs.endswith('f64>::clamp') or 'f64' in cs and cs.endswith('::clamp'):
-                        rep.ob('C01.R1', fn, 'partial-call:clamp', False, 'f64::clamp panics when min > max or NaN bounds')
+                    if cs.endswith('::clamp'):
+                        # f64::clamp(x, lo, hi) panics unless lo <= hi (and neither is NaN)
+                        lo_, hi_ = args[1], args[2]
+                        okc = False
+                        if num(lo_) is not None and num(hi_) is not None:
+                            okc = num(lo_) <= num(hi_)
+                        elif num(lo_) is not None:
+                            hs = strip_sites(hi_)
+                            okc, w = all_paths(pf.at_entry(b), lambda S: has_cmp(S, 'lt', lambda l2: num(l2) is not None and num(l2) >= num(lo_), lambda r2: r2 == hs, True)
+                                               or has_cmp(S, 'le', lambda l2: num(l2) is not None and num(l2) >= num(lo_), lambda r2: r2 == hs, True))
+                            okc = okc and bool(pf.at_entry(b))
+                        rep.ob('C01.R1', fn, 'partial-call:clamp:CLAMP-GUARDED', okc, 'clamp(%s, %s, %s): lo <= hi established on every path' % (show(args[0])[:30], show(lo_), show(hi_)))
                         continue
                     n_sites['other'] += 1
                     rep.ob('C01.R1', fn, 'partial-call:' + cs.split('<')[0][-50:], False, 'call to partial API %s is not in any discharge class' % cs, site='%s:%d' % (fn.file, bb['ln']))
@@ -488,14 +502,7 @@ def check_C01(ctx, rep):
     sccs = tarjan(graph)
     nontriv = [sorted(prog.fns[k].name for k in s) for s in sccs if len(s) > 1 or (len(s) == 1 and list(s)[0] in graph[list(s)[0]])]
     rep.ob('C01.R2', '<callgraph>', 'single-known-recursion', sorted(nontriv) == [['transition', 'update_counter']], 'non-trivial SCCs: %s' % nontriv)
-    sub = Report('C08', 'sub')
-    from .rules_fw import check_C08
-    try:
-        check_C08(ctx, sub)
-        bad = [o for o in sub.obligations if not o['ok'] and o['rule'] in ('C08.R3', 'C08.R4')]
-    except AnchorMissing as e:
-        bad = [{'construct': 'anchor ' + str(e)}]
-    rep.ob('C01.R2', F['update_counter'], 'recursion-fuel', not bad, 'once-per-call flag discipline (C08.R3/R4): %s' % ([o['construct'] for o in bad] or 'holds'))
+    fuel_check(ctx, rep, sccs, graph)
     # transition -> update_counter exactly one site each way
     uc_in_tr = sum(1 for (b, f, a, t) in calls(an.get(F['transition'])) if callee_key(f) == F['update_counter'].key)
     tr_in_uc = sum(1 for (b, f, a, t) in calls(an.get(F['update_counter'])) if callee_key(f) == F['transition'].key)
@@ -532,6 +539,106 @@ def check_C01(ctx, rep):
                         'validated machines have at least one state and in-range transition targets (C12.R3/R4)',
                         'every CFG path is treated as feasible']
     return 'panic-site inventory with discharge classes over the own-crate closure of the framework entry points; SCC and loop-shape analysis'
+
+
+def fuel_check(ctx, rep, sccs, graph):
+    """the recursive CounterZero transition is requested only on paths that test a framework flag false and set that same
+    flag true; such flags are cleared only outside everything reachable from the recursive cycle"""
+    prog, an = ctx.prog, ctx.an
+    F = fw_fns(prog)
+    fn = F['update_counter']
+    fa = an.get(fn)
+    pf = an.paths(fn)
+    rec = [(b, f, a, t) for (b, f, a, t) in calls(fa) if callee_key(f) == F['transition'].key]
+    if len(rec) != 1:
+        rep.ob('C01.R2', fn, 'recursion-fuel', False, 'recursive call sites: %d' % len(rec))
+        return
+    rb = rec[0][0]
+    # guard local of the recursion
+    pfh = an.paths(fn, history=True)
+    guards = set()
+    for S in pfh.at_entry(rb):
+        for f in S:
+            if f[0] == 'btrue' and f[2] is True and f[1][0] == 'load' and f[1][1][0] == 'local':
+                guards.add(f[1][1][1])
+            if f[0] == 'btrue' and f[2] is True and f[1][0] == 'phi':
+                guards.add(('phi', f[1]))
+    # locals switched on that dominate the call
+    gl = None
+    for d in sorted(fa.cfg.dom()[rb], reverse=True):
+        t2 = fa.blocks[d]['t']
+        if t2['k'] == 'switch' and d != rb:
+            pl = t2['d'].get('c') or t2['d'].get('m')
+            if pl is not None and not pl['pr']:
+                l = pl['l']
+                sd = fa.single_def(l)
+                if sd is not None and sd[1] < len(fa.blocks[sd[0]]['s']):
+                    rv = fa.blocks[sd[0]]['s'][sd[1]]['rv']
+                    if rv['k'] == 'use' and not (rv['x'].get('c') or rv['x'].get('m') or {'pr': [1]})['pr']:
+                        l = (rv['x'].get('c') or rv['x'].get('m'))['l']
+                gl = l
+                break
+    if gl is None:
+        rep.ob('C01.R2', fn, 'recursion-fuel', False, 'no guard local found for the recursive call')
+        return
+    trues = [(b, k) for (b, k, part) in fa.defs().get(gl, []) if is_const(fa.def_value(gl, b, k), 1)]
+    others = [(b, k) for (b, k, part) in fa.defs().get(gl, []) if not is_const(fa.def_value(gl, b, k), 1) and not is_const(fa.def_value(gl, b, k), 0)]
+    ok = bool(trues) and not others
+    flag_paths = set()
+    detail = []
+    for (b, k) in trues:
+        for S in pf.at(b, k):
+            tested = [strip_sites(f[1]) for f in S if f[0] == 'btrue' and f[2] is False and f[1][0] == 'load' and contains(f[1], lambda x: isinstance(x, tuple) and x and x[0] == 'fld' and x[2].endswith('Framework'))]
+            if not tested:
+                ok = False
+                detail.append('request without a flag test')
+                continue
+            # one of the tested flags is set true between here and the recursion
+            setok = False
+            for tf in tested:
+                p = tf[1]
+                for (pe, v, site, mp) in stores(fa):
+                    if strip_sites(pe) == p and is_const(v, 1) and (site[0] == b or fa.cfg.can_reach(b, site[0])):
+                        lo, hi = count_between_blocks(fa, b, rb, {site[0]})
+                        if lo >= 1:
+                            setok = True
+                            flag_paths.add(last_field(p))
+            if not setok:
+                ok = False
+                detail.append('flag tested but not set on the way to the recursion')
+    # the flags are cleared only outside the functions reachable from the cycle
+    cyc = set()
+    for scc in sccs:
+        if F['transition'].key in scc:
+            cyc = set(scc)
+    reach = set(cyc)
+    work = list(cyc)
+    while work:
+        k = work.pop()
+        for c in graph.get(k, ()):
+            if c not in reach:
+                reach.add(c)
+                work.append(c)
+    for k in reach:
+        f2 = prog.fns[k]
+        fa2 = an.get(f2)
+        for (pe, v, site, mp) in stores(fa2):
+            lf = last_field(pe)
+            if lf in flag_paths and not is_const(v, 1):
+                ok = False
+                detail.append('flag %s cleared inside the recursive region (%s)' % (lf[1], f2.short()))
+        for (b2, f3, a3, t3) in calls(fa2):
+            if callee_str(f3).endswith('::fill') and a3 and any(contains(a3[0], lambda x: isinstance(x, tuple) and x and x[0] == 'fld' and (x[2], x[3]) == (lf2[0], lf2[1].split('.')[0])) for lf2 in flag_paths if lf2):
+                ok = False
+                detail.append('flags refilled inside the recursive region (%s)' % f2.short())
+    rep.ob('C01.R2', fn, 'recursion-fuel', ok, 'CounterZero recursion consumes a once-per-call flag on every path: %s' % (detail or sorted(x[1] for x in flag_paths if x)))
+
+
+def count_between_blocks(fa, a, b, marks):
+    from .rules_limits import count_between
+    if a in marks:
+        return (1, 1)
+    return count_between(fa, a, b, marks)
 
 
 def state0_after_validate(ctx, fn, fa, b):
